@@ -380,4 +380,67 @@ theorem lexBlock_indent (tb d rest : Text) (htb : tb.all isBlank = true) (hd : h
   have := lexBlock_prefix _ hX '\n' (tb ++ quotes3 ++ rest) _ _ (by decide) h1
   simpa [List.append_assoc] using this
 
+/-- the block-style description is one block-string token denoting the description -/
+theorem lexToken_block (tb d rest : Text) (htb : tb.all isBlank = true) (hd : blockPrintable d = true) :
+    lexToken (quotes3 ++ '\n' :: tb ++ indentLines tb d ++ '\n' :: tb ++ quotes3 ++ '\n' :: rest) = some (.str d, '\n' :: rest) := by
+  have hd' := hd
+  simp only [blockPrintable, Bool.and_eq_true, Bool.not_eq_true'] at hd'
+  have hlb := lexBlock_indent tb d ('\n' :: rest) htb hd'.1.1.1
+  have e : quotes3 ++ '\n' :: tb ++ indentLines tb d ++ '\n' :: tb ++ quotes3 ++ '\n' :: rest =
+      '"' :: '"' :: '"' :: ('\n' :: tb ++ indentLines tb d ++ '\n' :: tb ++ quotes3 ++ '\n' :: rest) := by
+    simp [quotes3, List.append_assoc]
+  rw [e]
+  unfold lexToken
+  have h1 : isPunct '"' = false := by decide
+  have h2 : nameStart '"' = false := by decide
+  have h3 : isDig '"' = false := by decide
+  simp only [h1, h2, h3, hlb, blockStringValue_indent tb d htb hd]
+  simp
+
+-- ------------------------------------------------------------------ quoted strings
+
+/-- one arm of the repaired `escape_string` is read back as the character it stands for -/
+theorem lexString_escapeChar (c : Char) (tl : Text) :
+    lexString (escapeChar false c ++ tl) = (lexString tl).map (fun p => (c :: p.1, p.2)) := by
+  unfold escapeChar
+  by_cases h1 : c = '\\'
+  · subst h1; rw [lexString.eq_def]; simp [escaped]; cases lexString tl <;> rfl
+  by_cases h2 : c = '"'
+  · subst h2; rw [lexString.eq_def]; simp [escaped]; cases lexString tl <;> rfl
+  by_cases h3 : c = Char.ofNat 8
+  · subst h3; rw [lexString.eq_def]; simp [escaped]; cases lexString tl <;> rfl
+  by_cases h4 : c = Char.ofNat 12
+  · subst h4; rw [lexString.eq_def]; simp [escaped]; cases lexString tl <;> rfl
+  by_cases h5 : c = '\n'
+  · subst h5; rw [lexString.eq_def]; simp [escaped]; cases lexString tl <;> rfl
+  by_cases h6 : c = '\r'
+  · subst h6; rw [lexString.eq_def]; simp [escaped]; cases lexString tl <;> rfl
+  by_cases h7 : c = '\t'
+  · subst h7; rw [lexString.eq_def]; simp [escaped]; cases lexString tl <;> rfl
+  simp only [h1, h2, h3, h4, h5, h6, h7, if_false, Bool.false_and, Bool.and_true, Bool.not_false, decide_false, Bool.false_eq_true]
+  rw [List.singleton_append, lexString.eq_def]
+  simp [h1, h2, h5, h6]
+  cases lexString tl <;> rfl
+
+theorem lexString_escapeString (t rest : Text) :
+    lexString (escapeString false t ++ '"' :: rest) = some (t, rest) := by
+  induction t with
+  | nil => rw [lexString.eq_def]; simp [escapeString]
+  | cons c r ih => simp [escapeString, List.append_assoc, lexString_escapeChar, ih]
+
+theorem escapeString_not_block (t rest : Text) (h : rest.head? ≠ some '"') :
+    ∀ y, escapeString false t ++ '"' :: rest ≠ '"' :: '"' :: y := by
+  intro y
+  cases t with
+  | nil =>
+    cases rest with
+    | nil => simp [escapeString]
+    | cons d rest' =>
+      have hd : d ≠ '"' := by simpa using h
+      simp [escapeString, hd]
+  | cons c r =>
+    simp only [escapeString, escapeChar]
+    repeat' split
+    all_goals simp_all
+
 end AGV.Lemmas.SdlBlock
